@@ -49,6 +49,7 @@ class FakeChannel:
         self.sent = []
         self.on_poll = None         # callable(n) -> None | raises
         self.update = None          # None: answer NO_CHANGE; else [{'id','path','line','args'}]: answer UPDATE with these
+        self.hash = 'hfix'          # the service's config hash (a client that reports it gets NO_CHANGE)
         self.on_send = None         # callable(n) -> None | raises | blocks
         self.lock = threading.Lock()
         self.closed = False
@@ -63,11 +64,11 @@ class FakeChannel:
                 if self.on_poll:
                     self.on_poll(n)
                 from deepproto.proto.poll.v1.poll_pb2 import PollResponse, ResponseType
-                if self.update is not None and request.current_hash != 'hfix':
+                if self.update is not None and request.current_hash != self.hash:
                     from deepproto.proto.tracepoint.v1.tracepoint_pb2 import TracePointConfig
                     tps = [TracePointConfig(ID=t['id'], path=t['path'], line_number=t['line'], args=t.get('args', {}))
                            for t in self.update]
-                    return PollResponse(response_type=ResponseType.UPDATE, ts_nanos=n, current_hash='hfix', response=tps)
+                    return PollResponse(response_type=ResponseType.UPDATE, ts_nanos=n, current_hash=self.hash, response=tps)
                 return PollResponse(response_type=ResponseType.NO_CHANGE, ts_nanos=n)
             with self.lock:
                 self.sent.append(len(data))
@@ -91,6 +92,8 @@ class FakeGrpcModule:
 
     def _new(self, *a, **k):
         c = FakeChannel()
+        self.count = getattr(self, 'count', 0) + 1
+        c.hash = 'hfix%d' % self.count      # every connection sees a service whose config is newer than the client's
         c.update = self.update
         self.channels.append(c)
         if len(self.channels) > 50:
